@@ -55,3 +55,10 @@ func collectRaces(sc *Scenario, r *vrt.Result) []RaceReport {
 	}
 	return rs
 }
+
+// DiscardRaceLog drops what the detector has printed so far (the self-check's intentional races).
+func DiscardRaceLog() {
+	if raceLog != nil {
+		raceLog.collect(nil)
+	}
+}
